@@ -1,2 +1,93 @@
--- stub: replaced by the model driver of this property
-def main : IO Unit := pure ()
+import SdcModel.Basic.Io
+import SdcModel.ContextAssoc
+open Sdc Sdc.Mdib Sdc.ContextAssoc
+
+/-!
+line protocol of the C10 model driver (all numbers decimal, `-` = None, lists comma separated, `_` = empty list)
+
+  env  <ctx h:dv,…|_> <other h,…|_> <locs h,…|_>     set the descriptors
+  reset <ver> <clock> <fresh> <loc|->                 empty table, counters as given
+  st   <state>                                        add a state to the table (start state)
+  loc  <loc> <dh|->                                   set_location
+  scs  <state>*                                       SetContextState with the proposals
+  dump                                                the table
+  state := h,dh,dv,sv,body,assoc(no|pre|assoc|dis),bindV,unbindV,bindT,unbindT
+
+answer of `loc`/`scs`/`dump`:  `<ok|err Class> ver=<v> fresh=<f> | <state> <state> …`  (states sorted by handle)
+-/
+
+def optNat? (s : String) : Option (Option Nat) := if s == "-" then some none else s.toNat?.map some
+
+def assoc? : String → Option Assoc
+  | "no" => some .no | "pre" => some .pre | "assoc" => some .assoc | "dis" => some .dis | _ => none
+
+def state? (s : String) : Option CState :=
+  match s.splitOn "," with
+  | [h, dh, dv, sv, body, a, bv, uv, bt, ut] => do
+    let h ← h.toNat?; let dh ← dh.toNat?; let dv ← dv.toNat?; let sv ← sv.toNat?; let body ← body.toNat?
+    let a ← assoc? a; let bv ← optNat? bv; let uv ← optNat? uv; let bt ← optNat? bt; let ut ← optNat? ut
+    pure { h, dh, dv, sv, body, assoc := a, bindV := bv, unbindV := uv, bindT := bt, unbindT := ut }
+  | _ => none
+
+def natListArg? (s : String) : Option (List Nat) :=
+  if s == "_" then some [] else (s.splitOn ",").mapM String.toNat?
+
+def pairListArg? (s : String) : Option (List (Nat × Nat)) :=
+  if s == "_" then some [] else (s.splitOn ",").mapM fun x => match x.splitOn ":" with
+    | [a, b] => do pure ((← a.toNat?), (← b.toNat?))
+    | _ => none
+
+def showOpt : Option Nat → String
+  | none => "-" | some n => toString n
+
+def showAssoc : Assoc → String
+  | .no => "no" | .pre => "pre" | .assoc => "assoc" | .dis => "dis"
+
+def showState (s : CState) : String :=
+  ",".intercalate [toString s.h, toString s.dh, toString s.dv, toString s.sv, toString s.body, showAssoc s.assoc,
+    showOpt s.bindV, showOpt s.unbindV, showOpt s.bindT, showOpt s.unbindT]
+
+def insertSorted (s : CState) : List CState → List CState
+  | [] => [s]
+  | x :: xs => if s.h ≤ x.h then s :: x :: xs else x :: insertSorted s xs
+
+def dump (st : St) : String :=
+  s!"ver={st.ver} fresh={st.fresh} | " ++ " ".intercalate ((st.tab.foldr insertSorted []).map showState)
+
+def showRes : Res → String
+  | .ok => "ok"
+  | .err .valueError => "err ValueError"
+  | .err .keyError => "err KeyError"
+  | .err .attributeError => "err AttributeError"
+
+def stepLine (x : Env × St) (line : String) : (Env × St) × String :=
+  let (env, st) := x
+  match Io.words line with
+  | ["env", c, o, l] =>
+    match pairListArg? c, natListArg? o, natListArg? l with
+    | some c, some o, some l => (({ ctx := c, other := o, locs := l }, st), "ok")
+    | _, _, _ => (x, "bad-op")
+  | ["reset", v, c, f, l] =>
+    match v.toNat?, c.toNat?, f.toNat?, optNat? l with
+    | some v, some c, some f, some l => ((env, { tab := [], ver := v, clock := c, fresh := f, loc := l }), "ok")
+    | _, _, _, _ => (x, "bad-op")
+  | ["st", s] =>
+    match state? s with
+    | some s => ((env, { st with tab := st.tab ++ [s] }), "ok")
+    | none => (x, "bad-op")
+  | ["loc", l, d] =>
+    match l.toNat?, optNat? d with
+    | some l, some d =>
+      let (st', r) := step env st (.setLocation l d)
+      ((env, st'), showRes r ++ " " ++ dump st')
+    | _, _ => (x, "bad-op")
+  | "scs" :: ps =>
+    match ps.mapM state? with
+    | some ps =>
+      let (st', r) := step env st (.setContextState ps)
+      ((env, st'), showRes r ++ " " ++ dump st')
+    | none => (x, "bad-op")
+  | ["dump"] => (x, "ok " ++ dump st)
+  | _ => (x, "bad-op")
+
+def main : IO Unit := Io.lineLoop stepLine (default, default)
